@@ -68,8 +68,8 @@ impl Property for C16 {
     }
     fn plan(&self, suite: SuiteId, tier: Tier) -> Vec<(u32, u32)> {
         let per = match (tier, suite.slow()) {
-            (Tier::Quick, false) => 30,
-            (Tier::Quick, true) => 6,
+            (Tier::Quick, false) => 150,
+            (Tier::Quick, true) => 25,
             (Tier::Thorough, false) => 600,
             (Tier::Thorough, true) => 100,
         };
